@@ -21,10 +21,13 @@ from .. import core, plants, result_common as R
 from ..core import enc, dec, close
 from . import c19
 from feems.fuel import FuelSpecifiedBy
+from feems.components_model.utility import IntegrationMethod
+from .. import fuels as F
 from feems.types_for_feems import EmissionType, TypePower, TypeComponent
 
 THEOREMS = ["merge_freeze_eq", "wf_merge", "figures_merge", "fold_eq_sum", "accumulate_eq_sum", "perm", "system_eq_sum_nodes",
-            "detail_rows"]
+            "detail_rows", "hours_one_class", "runningHours_nonneg", "runningHours_le_duration", "runningHours_idle", "runningHours_always",
+            "energy_classes", "pti_pto_sides", "fuel_reported", "load_ratio_reported"]
 DEPENDS_ON_MODULES = ["FeemsProofs.C19", "FeemsProofs.C18"]
 
 
@@ -54,6 +57,61 @@ def py_sum(obs_list, n_ext):
     return out
 
 
+KIND_OF = {"generator": "generator", "genset": "genset", "fuel_cell_system": "fuel_cell", "coges": "coges", "other_load": "other_load",
+           "drive": "propulsion", "pti_pto": "pti_pto", "battery": "storage", "battery_system": "storage", "supercap": "storage",
+           "supercap_system": "storage", "main_engine": "main_engine"}
+FIG = {"cons_electric": "energy_consumption_electric_total_mj", "cons_mechanical": "energy_consumption_mechanical_total_mj",
+       "stored": "energy_stored_total_mj", "input_mechanical": "energy_input_mechanical_total_mj", "input_electric": "energy_input_electric_total_mj",
+       "propulsion": "energy_consumption_propulsion_total_mj", "auxiliary": "energy_consumption_auxiliary_total_mj",
+       "hours_main": "running_hours_main_engines_hr", "hours_genset": "running_hours_genset_total_hr",
+       "hours_fuel_cell": "running_hours_fuel_cell_total_hr", "hours_pti_pto": "running_hours_pti_pto_total_hr"}
+
+
+def component_figures(ctx, comp, cspec, dt, spec_by, where):
+    """The per-component result against `CompResult.eval`: which figure the component's series go into. The series are read from
+    the component after the real function ran (it recomputes a generator's input and an auxiliary load's output); fuel mass-flow
+    series and the load ratio come from the machine's own run point, stored energy from the storage unit (C07 / C17)."""
+    from feems.components_model.node import get_fuel_emission_energy_balance_for_component as real
+    kind = KIND_OF.get(cspec["kind"]) or ("propulsion" if cspec.get("type", "PROPELLER_LOAD") == "PROPELLER_LOAD" else "other_load")
+    n = len(dt)
+    for mech_side in ([False, True] if kind == "pti_pto" else [False]):
+        cr = real(component=comp, time_interval_s=dt, integration_method=IntegrationMethod.sum_with_time, fuel_specified_by=spec_by,
+                  isSystemMechanical=mech_side)
+        pout = np.broadcast_to(np.asarray(comp.power_output, dtype=float), (n,))
+        pin = np.broadcast_to(np.asarray(comp.power_input, dtype=float), (n,))
+        fuels, load, stored = [], [], 0.0
+        if kind == "genset":
+            rp = comp.get_fuel_cons_load_bsfc_from_power_out_generator_kw(power=comp.power_output, fuel_specified_by=spec_by)
+            fuels, load = rp.engine.fuel_flow_rate_kg_per_s.fuels, np.atleast_1d(rp.genset_load_ratio)
+        elif kind == "main_engine":
+            fuels = comp.get_engine_run_point_from_power_out_kw(fuel_specified_by=spec_by).fuel_flow_rate_kg_per_s.fuels
+        elif kind == "fuel_cell":
+            fuels = comp.get_fuel_cell_run_point(power_out_kw=comp.power_output, fuel_specified_by=spec_by).fuel_flow_rate_kg_per_s.fuels
+        elif kind == "coges":
+            rp = comp.get_system_run_point_from_power_output_kw(fuel_specified_by=spec_by)
+            fuels, load = rp.cogas.fuel_flow_rate_kg_per_s.fuels, np.atleast_1d(rp.coges_load_ratio)
+        elif kind == "storage":
+            stored = float(comp.get_energy_stored_kj(time_interval_s=dt, integration_method=IntegrationMethod.sum_with_time))
+        fj = [[f.fuel_type.value, f.origin.value, f.fuel_specified_by.value,
+               [enc(x) for x in np.broadcast_to(np.asarray(f.mass_or_mass_fraction, dtype=float), (n,))]] for f in fuels]
+        ans = ctx.model.call("compresult.eval", kind=kind, mech_side=mech_side, pout=[enc(x) for x in pout], pin=[enc(x) for x in pin],
+                             dt=[enc(x) for x in dt], fuel=fj, stored_kj=enc(stored), load=[enc(float(x)) for x in np.asarray(load, dtype=float).reshape(-1)])
+        ctx.count("component_figures", kind + (":mech-side" if mech_side else ""))
+        scale = max(1.0, float(np.dot(np.abs(pout), dt)) / 1000, float(np.dot(np.abs(pin), dt)) / 1000)
+        for key, field in FIG.items():
+            got = getattr(cr, field)
+            got = 0.0 if got is None else float(np.asarray(got, dtype=float).reshape(-1)[0]) if np.size(got) == 1 else float(np.sum(got))
+            if not close(dec(ans[key]), got, scale=scale):
+                ctx.fail("correspondence", "component-figure-" + key, f"{kind} {comp.name}{' (mechanical side)' if mech_side else ''}: {field}: model {float(dec(ans[key]))} impl {got}", where)
+        mm = c19.as_map([[t, o, sp, float(dec(m))] for t, o, sp, m in ans["fuel"]])
+        mi = c19.as_map([[k[0], k[1], k[2], c19.f1(m)] for k, m in F.rec_snapshot(cr.multi_fuel_consumption_total_kg)])
+        if set(mm) != set(mi) or not all(close(mm[k], mi[k], scale=1.0) for k in mm):
+            ctx.fail("correspondence", "component-fuel", f"{kind} {comp.name}: model {mm} impl {mi}", where)
+        lr = cr.load_ratio_genset
+        if (ans["load"] is None) != (lr is None) or (lr is not None and not close(dec(ans["load"]), c19.f1(lr))):
+            ctx.fail("correspondence", "component-load-ratio", f"{kind} {comp.name}: model {ans['load']} impl {lr}", where)
+
+
 def run_case(ctx, case, model=True):
     where = {"case": case}
     spec_by = FuelSpecifiedBy[case.get("spec_by", "IMO")]
@@ -76,6 +134,7 @@ def run_case(ctx, case, model=True):
         if not (np.all(np.isfinite(np.asarray(obj.power_output, dtype=float))) and np.all(np.isfinite(np.asarray(obj.power_input, dtype=float)))):
             ctx.count("skipped", "bus-without-capacity")
             return False
+    spec_of = {id(plant.by_name[c["name"]]): c for c in case["spec"].get("electric", []) + case["spec"].get("mechanical", []) if c["kind"] != "pti_pto_ref"}
     for side, res in sysres.items():
         sys_obs = R.observe_result(res)
         node_obs, all_comp_obs, model_nodes = [], [], []
@@ -84,6 +143,8 @@ def run_case(ctx, case, model=True):
             for comp in comps_:
                 cr = R.component_result(comp, dt, spec_by)
                 cobs.append(R.observe_result(cr))
+                if model and ctx.model_available and id(comp) in spec_of and not (side == "mechanical" and spec_of[id(comp)]["kind"] == "pti_pto"):
+                    component_figures(ctx, comp, spec_of[id(comp)], dt, spec_by, where)
                 for f in cr.multi_fuel_consumption_total_kg.fuels:
                     ctx.count("fuel_kind", f.fuel_type.name)
             all_comp_obs += cobs
